@@ -735,26 +735,20 @@ def rule_ids(rep: Report, rid_order="C11.order", rid_src="C11.src") -> None:
     # ids are drawn only under transform_node
     f = facts()
     cls = f.cls(BQ)
-    reach = set()
-    work = ["transform_node"]
+    # functions reached from transform_node (resolved calls of the normal-form runs, including dispatch tables and helpers)
+    reach = {f"{BQ}.transform_node"} | {callee for caller, callee, line in b.I.call_log}
     import ast as _ast
-    while work:
-        nm = work.pop()
-        if nm in reach:
+    for m in f.modules.values():
+        if m.name == "gherkin.inout":
             continue
-        reach.add(nm)
-        fi = cls.find_method(nm)
-        if fi is None:
-            continue
-        for n in _ast.walk(fi.node):
-            if isinstance(n, _ast.Attribute) and isinstance(n.value, _ast.Name) and n.value.id in ("self", "cls") and isinstance(n.ctx, _ast.Load):
-                work.append(n.attr)
-    for c in cls.mro():
-        for fi in c.methods.values():
+        fns = list(m.functions.values()) + [x for c in m.classes.values() for x in c.methods.values()]
+        for fi in fns:
+            if fi.qualname.startswith("gherkin.stream.id_generator") or fi.module.name == "gherkin.pickles.compiler":
+                continue
             has = any(isinstance(n, _ast.Attribute) and n.attr == "get_next_id" for n in _ast.walk(fi.node))
             if has:
-                rep.ob(rid_order, f"{fi.name}: ids are drawn only while a finished node is transformed (children before parents)", fi.name in reach,
-                       file=fi.file, line=fi.node.lineno, function=fi.qualname, expected="reachable from transform_node only", found=fi.name)
+                rep.ob(rid_order, f"{fi.name}: ids are drawn only while a finished node is transformed (children before parents)", fi.qualname in reach,
+                       file=fi.file, line=fi.node.lineno, function=fi.qualname, expected="reachable from transform_node only", found=fi.qualname)
     # end_rule: pop, transform, add to the parent -> a node is transformed when it is complete
     I2 = new_interp()
     q = f"{BQ}.end_rule"
